@@ -208,6 +208,8 @@ func runC03(c *Ctx) {
 	if p == nil {
 		return
 	}
+	// shared with C01: the threshold compared with is the one the caller configured (stored as given, written once)
+	checkThresholdAndQ(c, p)
 	fns := v2Funcs(p)
 	lits := structLits(fns, "/v2.Match")
 	nLicense, nCopyright := 0, 0
